@@ -4,6 +4,7 @@ CONSTANTS
   SpanU <- SpanUQ
   MaxDirs = 2
   Handles = {1, 2}
+  KVals = {"1", "2"}
   SkipOffPush = FALSE
 INVARIANTS EventsExact SpansAllowed WouldAgrees BothAgree ScopeIsEntered HintSound
 CHECK_DEADLOCK FALSE
